@@ -265,8 +265,9 @@ def dist_case(draw, name, n=None):
     )
 
 
-def _value_forms(draw, params, gen):
-    form = draw(st.sampled_from(["float", "list", "dict"]))
+def _value_forms(draw, params, gen, scalar_ok=True):
+    form = draw(st.sampled_from(
+        ["float", "list", "dict"] if scalar_ok else ["list", "dict"]))
     if form == "float":
         return gen(params[0])
     if form == "list":
@@ -296,14 +297,14 @@ def sas_case(draw, name, n=None):
         if sel == "noshift":
             kw["estimate_shift"] = False
             if draw(st.booleans()):
-                kw["shift"] = _value_forms(draw, params, shift_gen)
+                kw["shift"] = _value_forms(draw, params, shift_gen, d == 1)
         elif sel == "noscale":
             kw["estimate_scale"] = False
             kw["scale"] = _value_forms(draw, params, scale_gen)
     else:
         kw["scale"] = _value_forms(draw, params, scale_gen)
         if draw(st.booleans()):
-            kw["shift"] = _value_forms(draw, params, shift_gen)
+            kw["shift"] = _value_forms(draw, params, shift_gen, d == 1)
         if _maybe(draw, 0.2):
             kw["estimate_scale"] = True
             estimate = True
@@ -600,8 +601,14 @@ def plain_proposal_cases(draw):
                         oc["bounds"].pop(p)
                         oc["x"].pop(p)
                 if fam == "angle":
-                    oc["kwargs"].pop("prior", None)
-                    oc["kwargs"].pop("scale", None)
+                    b = oc["bounds"][oc["parameters"][0]]
+                    sc = oc["kwargs"].get("scale", {
+                        "angle": 1.0, "angle-pi": 2.0, "angle-2pi": 1.0,
+                        "periodic": None}[name])
+                    full = sc is None or abs(
+                        sc * (b[1] - b[0]) - 2 * PI) < 1e-12
+                    if full:
+                        oc["kwargs"]["prior"] = "uniform"
             g, gx = _group_from(oc, i, "A")
             single = len(g["parameters"]) == 1
             forms = []
